@@ -136,16 +136,13 @@ def schedAt (a : ASys) (loc id : String) : Bool :=
   | some it => it.sched != ""
   | none => false
 
-/-- `State.Clear`. `IndexedState.Clear` runs the rem hook for every stored id — `Cronner.Rem(id)` for every stored
-scheduled rule, i.e. the registry loses exactly the keys of this location's scheduled rules —, then empties the
-state; `LinearState.Clear` only empties the state. -/
+/-- `State.Clear`. Both states run the rem hook for every stored id — `Cronner.Rem(id)` for every stored
+scheduled rule, i.e. the registry loses exactly the keys of this location's scheduled rules —, then empty the
+state (`LinearState.Clear` only emptied the state until the repair of finding C15-linear-clear). -/
 def evClear (a : ASys) (loc : String) : ASys :=
-  match a.kind with
-  | .linear => { a with items := itemsNotOf a.items loc }
-  | .indexed =>
-    { a with
-      reg := a.reg.filter (fun p => !(decide (p.1 = keyOf a.cfg loc p.1.2) && schedAt a loc p.1.2)),
-      items := itemsNotOf a.items loc }
+  { a with
+    reg := a.reg.filter (fun p => !(decide (p.1 = keyOf a.cfg loc p.1.2) && schedAt a loc p.1.2)),
+    items := itemsNotOf a.items loc }
 
 /-- a location re-created from its stored documents (`NewLocation` → `State.Load`) -/
 def evLoad (a : ASys) (loc : String) (docs : List (String × AItem)) : ASys :=
@@ -240,8 +237,7 @@ def Plain (a : ASys) : AEv → Bool
   | .drop loc ids =>
     -- side-effect deletions (cascade, expiry) touch no scheduled rule
     (itemsOf a.items loc).all (fun p => !ids.contains p.1.2 || p.2.sched == "")
-  | .clear loc =>
-    a.kind == .indexed || (itemsOf a.items loc).all (fun p => p.2.sched == "")
+  | .clear _ => true
   | .load _ _ => false
   | .cronReset => a.cfg.persistent
   | .tick key en co =>
